@@ -16,8 +16,10 @@ CONSTANTS
     MaxChanges = 1
     MaxPend = 1
     MaxConfigs = 1
+    MaxRestores = 0
+    StaleRef = FALSE
     None = None
 SYMMETRY SymNodes2
-INVARIANTS TypeOK OnlyIdleExpire ActiveNeverExpires ExpiredSessionGone NickUnique
+INVARIANTS TypeOK OnlyIdleExpire ActiveNeverExpires SweepsAllIdle ExpiredSessionGone NickUnique
 PROPERTIES FollowersNeverPropose
 CHECK_DEADLOCK FALSE
